@@ -127,6 +127,9 @@ class Request {
  * Default @a Request implementation.
  */
 class RequestImpl : public Request {
+#ifdef EBUSD_VERIF
+  friend struct VerifAccess;  // verification harness access (no behaviour change)
+#endif
  public:
   /**
    * Constructor.
